@@ -438,7 +438,7 @@ def r4(ctx):
                 cb = lib.body(cp)
                 if cb.calls(r'Metadata::is_file$'):
                     file_r.append((c, cb))
-                if any(True for cm in comparisons(cb) if cm.op == '==' and (backslice(cb, [cm.a]).has_call(r'FileMetadata::len$|Metadata::len$') or backslice(cb, [cm.b]).has_call(r'FileMetadata::len$|Metadata::len$'))):
+                if any(True for cm in comparisons(cb) if cm.op in ('==', '!=') and (backslice(cb, [cm.a]).has_call(r'FileMetadata::len$|Metadata::len$') or backslice(cb, [cm.b]).has_call(r'FileMetadata::len$|Metadata::len$'))):
                     len_r.append((c, cb))
     if ctx.floor(rule, 'regular-file filter (retain + is_file)', len(file_r), 1, b.where()):
         c, cb = file_r[0]
